@@ -226,13 +226,13 @@ Definition prog_header (fx : fixes) (selfc validargs : bool) : prog :=
       (if validargs then CSkip else throw S_ARGS) ;; CSetjmp 0 ;; CSet warning (EA "warn") ;;
       mem_src ;;
       (* F9 fix: an ICC profile extracted from a previous image does not belong to this one *)
-      (if fx9 fx then CSet (T "tempICCBuf") (EC 0) ;; CSet (T "tempICCSize") (EC 0) else CSkip) ;;
+      (if fx9 fx then CSet (T "tempICCBuf") (EC 0) ;; CSet (T "tempICCSize") (EC 0) ;; CSet (T "tempICCMarkers") (EC 0) else CSkip) ;;
       CIf icc_wanted (CSet (D "marker->save_APP2") (EC 1)) CSkip ;;     (* jpeg_save_markers: never switched off again *)
       header_or_tables selfc false (CGoto TReturn) ;;
       set_decomp_parameters ;;
       CIf icc_wanted use_marker_list CSkip ;;
       CIf icc_wanted
-          (CIf (EA "has_icc") (CSet (T "tempICCBuf") (EA "icc_id") ;; CSet (T "tempICCSize") (EA "icc_id")) CSkip)
+          (CIf (EA "has_icc") (CSet (T "tempICCBuf") (EA "icc_id") ;; CSet (T "tempICCSize") (EA "icc_id") ;; CSet (T "tempICCMarkers") (EC 1)) CSkip)
           CSkip ;;
       abortc OD ;;
       throw S_POSTHDR).
@@ -338,15 +338,17 @@ Definition prog_decompress (fx : fixes) (name : string) (selfc crop merged : boo
 (* the wrapper reads the header itself (handler 0) and then calls the planar function with
    global_state = DSTATE_READY, which therefore does not read the header again (handlers 1, 2);
    both bailout blocks abort when global_state > DSTATE_START *)
-Definition prog_decompress_yuv (fx : fixes) (selfc : bool) : prog :=
+Definition prog_decompress_yuv (fx : fixes) (selfc direct : bool) : prog :=
   mkprog
-     (prologue ;; throw S_ARGS ;;
+     ((* direct: tj3DecompressToYUVPlanes8 called by the application itself *)
+      (if direct then CSkip else
+      prologue ;; throw S_ARGS ;;
       CSetjmp 0 ;; CSet warning (EA "warn") ;;
       CIf (ELe (EG gsd) (EC dstate_inheader)) (mem_src ;; header_or_tables selfc true CSkip) CSkip ;;
       set_decomp_parameters ;;
-      throw S_POSTHDR ;;
+      throw S_POSTHDR) ;;
       (* tj3DecompressToYUVPlanes8 *)
-      prologue ;;
+      prologue ;; (if direct then throw S_ARGS else CSkip) ;;
       set_progress ;;
       CSet (D "mem->max_memory_to_use") (P "maxMemory") ;;
       CSetjmp 1 ;; CSet warning (EA "warn") ;;
@@ -443,7 +445,8 @@ Definition prog_transform_bufsize : prog :=
      (prologue ;; throw S_ARGS ;;
       CObs "jpegWidth" (P "jpegWidth") ;; CObs "jpegHeight" (P "jpegHeight") ;; CObs "subsamp" (P "subsamp") ;;
       CIf (EAnd icc_wanted (ENot (EA "copynone")))
-          (CObs "tempICCSize" (P "tempICCSize") ;; CIf (EEq (P "tempICCSize") (EC 0)) (CObs "iccSize" (P "iccSize")) CSkip)
+          (CObs "tempICCSize" (P "tempICCSize") ;;
+           CIf (EEq (P "tempICCSize") (EC 0)) (CObs "iccSize" (P "iccSize")) (CObs "tempICCMarkers" (P "tempICCMarkers")))
           (CObs "iccSize" (P "iccSize"))).
 
 Definition need_ok (n : pneed) : expr :=
@@ -756,11 +759,53 @@ Definition prog_legacy_transform (fx : fixes) (selfc : bool) : prog :=
      (handlers_of "tjTransform" ++ handlers_of "tj3Transform")%list
      (bailout_of "tj3Transform").
 
-(* ------------------------------------------------------------ operation kinds *)
 Inductive bits := B8 | B12 | B16.
 Definition bitsz (b : bits) : Z := match b with B8 => 8 | B12 => 12 | B16 => 16 end.
 Definition cname (b : bits) : string := match b with B8 => "tj3Compress8" | B12 => "tj3Compress12" | B16 => "tj3Compress16" end.
 Definition dname (b : bits) : string := match b with B8 => "tj3Decompress8" | B12 => "tj3Decompress12" | B16 => "tj3Decompress16" end.
+
+(* tjDecompressToYUV2 / tjDecompressToYUVPlanes: header read by the wrapper (own handler and bailout), scaling
+   factor, flags; then tj3DecompressToYUV8 / tj3DecompressToYUVPlanes8 continue from DSTATE_READY *)
+Definition prog_legacy_decompress_yuv (fx : fixes) (selfc : bool) : prog :=
+  let inner := prog_decompress_yuv fx selfc false in
+  mkprog
+     (prologue ;; throw S_LARGS ;;
+      CSetjmp 0 ;; CSet warning (EA "warn") ;;
+      mem_src ;; header_or_tables selfc true CSkip ;;
+      throw S_LSCALE ;;
+      process_flags false ;;
+      CSet (T "scalingFactor.num") (EA "sfn") ;; CSet (T "scalingFactor.denom") (EA "sfd") ;;
+      p_body inner)
+     (handlers_of "tjDecompressToYUV2" ++ p_handlers inner)%list
+     (p_bailout inner).
+
+(* tj3LoadImage* / tj3SaveImage*: the work is done on a temporary instance that the bailout block destroys; of the
+   instance passed in only parameters are read, and tj3LoadImage* stores the pixel density of a BMP file *)
+Definition lname (b : bits) : string := match b with B8 => "tj3LoadImage8" | B12 => "tj3LoadImage12" | B16 => "tj3LoadImage16" end.
+Definition sname (b : bits) : string := match b with B8 => "tj3SaveImage8" | B12 => "tj3SaveImage12" | B16 => "tj3SaveImage16" end.
+Definition prog_load_image (b : bits) : prog :=
+  mk (lname b)
+     (prologue ;; throw S_ARGS ;;
+      CSetjmp 0 ;;
+      CObs "bottomUp" (P "bottomUp") ;; CObs "precision" (P "precision") ;; CObs "maxMemory" (P "maxMemory") ;;
+      CObs "maxPixels" (P "maxPixels") ;;
+      stage S_SCAN ;;
+      CIf (EA "bmp_density")
+          (CSet (T "xDensity") (EA "o_xDensity") ;; CSet (T "yDensity") (EA "o_yDensity") ;; CSet (T "densityUnits") (EA "o_densityUnits"))
+          CSkip ;;
+      CSetjmp 1 ;;
+      stage S_FINISH ;;
+      CObs "pixels" (EA "img")).
+Definition prog_save_image (b : bits) : prog :=
+  mk (sname b)
+     (prologue ;; throw S_ARGS ;;
+      CSetjmp 0 ;;
+      CObs "bottomUp" (P "bottomUp") ;; CObs "precision" (P "precision") ;; CObs "maxMemory" (P "maxMemory") ;;
+      CObs "xDensity" (P "xDensity") ;; CObs "yDensity" (P "yDensity") ;; CObs "densityUnits" (P "densityUnits") ;;
+      stage S_SCAN ;;
+      CObs "file" (EA "img")).
+
+(* ------------------------------------------------------------ operation kinds *)
 
 (* selfc: the JPEG stream passed to the call carries all the tables it uses (true for
    every probe; abbreviated streams may occur in histories) *)
@@ -769,10 +814,12 @@ Inductive opk :=
   | KCompress (b : bits) | KCompressYUV | KEncodeYUV
   | KHeader (selfc : bool) (validargs : bool)
   | KDecompress (b : bits) (selfc : bool) (crop : bool) (merged : bool)
-  | KDecompressYUV (selfc : bool)
+  | KDecompressYUV (selfc : bool) (direct : bool)
   | KDecodeYUV (merged : bool) | KGetICC | KTransformBufSize
   | KTransform (selfc : bool) (two : bool)
-  | KLegacyCompress | KLegacyDecompress (selfc : bool) (merged : bool) | KLegacyTransform (selfc : bool).
+  | KLegacyCompress | KLegacyDecompress (selfc : bool) (merged : bool) | KLegacyTransform (selfc : bool)
+  | KLegacyDecompressYUV (selfc : bool)
+  | KLoadImage (b : bits) | KSaveImage (b : bits).
 
 Definition prog_of (fx : fixes) (k : opk) : prog :=
   match k with
@@ -785,7 +832,7 @@ Definition prog_of (fx : fixes) (k : opk) : prog :=
   | KEncodeYUV => prog_encode_yuv
   | KHeader s v => prog_header fx s v
   | KDecompress b s c m => prog_decompress fx (dname b) s (match b with B16 => false | _ => c end) m
-  | KDecompressYUV s => prog_decompress_yuv fx s
+  | KDecompressYUV s d => prog_decompress_yuv fx s d
   | KDecodeYUV m => prog_decode_yuv fx m
   | KGetICC => prog_get_icc
   | KTransformBufSize => prog_transform_bufsize
@@ -793,11 +840,14 @@ Definition prog_of (fx : fixes) (k : opk) : prog :=
   | KLegacyCompress => prog_legacy_compress fx
   | KLegacyDecompress s m => prog_legacy_decompress fx s m
   | KLegacyTransform s => prog_legacy_transform fx s
+  | KLegacyDecompressYUV s => prog_legacy_decompress_yuv fx s
+  | KLoadImage b => prog_load_image b
+  | KSaveImage b => prog_save_image b
   end.
 
 Definition is_selfc (k : opk) : bool :=
   match k with
-  | KHeader s _ | KDecompress _ s _ _ | KDecompressYUV s | KTransform s _ | KLegacyDecompress s _ | KLegacyTransform s => s
+  | KHeader s _ | KDecompress _ s _ _ | KDecompressYUV s _ | KTransform s _ | KLegacyDecompress s _ | KLegacyTransform s | KLegacyDecompressYUV s => s
   | _ => true
   end.
 
@@ -867,8 +917,9 @@ Definition hist_fields (fx : fixes) : list fld :=
   flat_map (fun k => prog_fields (prog_of fx k))
            [KSet; KSetScaling; KSetCrop; KSetICC; KCompress B8; KCompress B12; KCompress B16; KCompressYUV; KEncodeYUV;
             KHeader false false; KDecompress B8 false true false; KDecompress B12 false true false; KDecompress B16 false false false;
-            KDecompressYUV false; KDecodeYUV false; KGetICC; KTransformBufSize; KTransform false true;
-            KLegacyCompress; KLegacyDecompress false false; KLegacyTransform false].
+            KDecompressYUV false true; KDecodeYUV false; KGetICC; KTransformBufSize; KTransform false true;
+            KLegacyCompress; KLegacyDecompress false false; KLegacyTransform false; KLegacyDecompressYUV false;
+            KLoadImage B8; KSaveImage B8].
 
 Fixpoint dedup (l acc : list fld) : list fld :=
   match l with [] => acc | f :: t => dedup t (addf f acc) end.
